@@ -28,6 +28,17 @@ def goenv():
     return e
 
 
+def case_strings(stdout):
+    """the JSON strings of <<"CASE", "..."> > tuples printed by a generator (robust against TLC's line wrapping)"""
+    out = []
+    for m in re.finditer(r'<<\s*"CASE",\s*("(?:[^"\\]|\\.)*")\s*>>', stdout):
+        try:
+            out.append(json.loads(m.group(1)))
+        except Exception:
+            raise Infra("unparsable CASE tuple: " + m.group(0)[:200])
+    return out
+
+
 class Run:
     """one invocation of a check: owns a scratch directory removed at exit"""
 
@@ -139,18 +150,12 @@ class Run:
         n = 0
         seen = set()
         with open(out_path, "a") as f:
-            for line in res["stdout"].splitlines():
-                if line.startswith('<<"CASE", "'):
-                    s = line[len('<<"CASE", '):-2]
-                    try:
-                        js = json.loads(s)
-                    except Exception:
-                        raise Infra("unparsable CASE line: " + line[:200])
-                    if js in seen:
-                        continue
-                    seen.add(js)
-                    f.write(js + "\n")
-                    n += 1
+            for js in case_strings(res["stdout"]):
+                if js in seen:
+                    continue
+                seen.add(js)
+                f.write(js + "\n")
+                n += 1
         log("[gen] %s/%s: %d cases, %d states, %.1fs" % (module, cfg, n, res["states"], res["wall"]))
         if n == 0:
             raise Infra("generator %s produced no cases" % cfg)
@@ -193,11 +198,10 @@ class Run:
             if not r["ok"]:
                 raise Infra("trace validation %s shard %d did not complete:\n%s" % (cfg, k, r["stdout"][-5000:]))
             vs = []
-            for line in r["stdout"].splitlines():
-                m = re.match(r'<<"VERDICT", (\d+), "(.*)">>$', line)
-                if m:
-                    li = int(m.group(1)) - 1
-                    vs.append({"line": base + li, "verdict": m.group(2)})
+            # TLC wraps long tuples over several lines: match across newlines
+            for m in re.finditer(r'<<\s*"VERDICT",\s*(\d+),\s*"([^"]*)"\s*>>', r["stdout"]):
+                li = int(m.group(1)) - 1
+                vs.append({"line": base + li, "verdict": m.group(2)})
             return vs
 
         with cf.ThreadPoolExecutor(max_workers=min(NCPU, len(jobs))) as ex:
@@ -270,7 +274,21 @@ def finish(run, level, coverage, assumptions, kn, viol, confirm=None, extra=None
             log("  rejected %6d x %s" % (n, k))
         os.makedirs(os.path.join(VERIF, "replays"), exist_ok=True)
         shown = 0
-        for v in viol:
+        per = {}
+        # report a few violations of every distinct reason rather than the first N of the trace
+        order = sorted(range(len(viol)), key=lambda i: (sum(1 for j in range(i) if viol[j]["verdict"] == viol[i]["verdict"]) if len(viol) < 400 else 0, i))
+        first_of = {}
+        for i, v in enumerate(viol):
+            first_of.setdefault(v["verdict"], []).append(i)
+        order = []
+        depth = 0
+        while len(order) < len(viol) and depth < 6:
+            for k, idxs in first_of.items():
+                if depth < len(idxs):
+                    order.append(idxs[depth])
+            depth += 1
+        rest = [i for i in range(len(viol)) if i not in set(order)]
+        for v in [viol[i] for i in order + rest]:
             if confirm is not None:
                 st = confirm(v)
                 if st == "unreproduced":
@@ -304,6 +322,24 @@ def finish(run, level, coverage, assumptions, kn, viol, confirm=None, extra=None
     log("[done] %s tier=%s seed=%d rc=%d wall=%.1fs violations=%d known=%s" % (
         run.pid, run.tier, run.seed, rc, time.time() - run.t0, nviol, {k: len(v) for k, v in kn.items()}))
     return rc
+
+
+def library_races(stderr):
+    """race detector reports in which at least one of the two conflicting accesses is made by library code
+    (top frame in github.com/aldas/go-modbus-client/...); races inside the harness itself are harness bugs"""
+    reps = []
+    for block in stderr.split("WARNING: DATA RACE")[1:]:
+        block = block.split("==================")[0]
+        tops = []
+        lines = block.splitlines()
+        for i, ln in enumerate(lines):
+            if ("Read at" in ln or "Write at" in ln or "Previous read at" in ln or "Previous write at" in ln) and i + 1 < len(lines):
+                tops.append(lines[i + 1].strip())
+        if any(t.startswith("github.com/aldas/go-modbus-client") for t in tops):
+            reps.append("WARNING: DATA RACE" + block[:2500])
+        elif tops and all(t.startswith("main.") or t.startswith("verifharness") for t in tops):
+            raise Infra("data race inside the harness itself:\n" + block[:2500])
+    return reps
 
 
 def count_ops(trace_path, key="op"):
